@@ -1105,7 +1105,7 @@ def plan(tier, seed):
     # rotation alphabet: every subset of non-zero angles, all three non-zero and distinct, negative, > 90 deg, short forms, radians
     rots = [[30, 0, 0], [0, -45, 0], [0, 0, 90], [12, -7, 0], [0, 21, -33], [-7, 13, 4], [3, -20, 31], [170, 60, -100], [-135, 100, 95],
             [95, 95, 95], [40], [20, -10]]
-    frames += [{'P': [1.5, -2.0, 12.0], 'R': r, 'form': 'batch'} for r in rots]
+    frames += [c for c in ({'P': [1.5, -2.0, 12.0], 'R': r, 'form': 'batch'} for r in rots) if c not in frames]
     frames += [{'P': [1.5, -2.0, 12.0], 'R': r, 'form': f, 'radians': True}
                for r in ([0.4, 0.0, 0.0], [0.0, -0.3, 0.0], [0.0, 0.0, 0.2], [0.4, -0.3, 0.2], [2.5, 1.7, -2.0], [-0.1, 0.2]) for f in ('batch', 'single')]
     L = 2 if tier == 'quick' else 3
